@@ -25,7 +25,8 @@ PROPERTY = "C18"
 RULE = (
     "strings = (a) every concatenation of <=4 (quick) / <=5 (thorough) tokens of a 32-token alphabet covering "
     "all lexer classes, (b) Hypothesis: valid selgen renderings under 1-3 token mutations and raw text over "
-    "the selector character set, (c) the five semantic faults of the statement injected into valid selectors. "
+    "the selector character set, (c) the five semantic faults of the statement injected into valid selectors, "
+    "each also tried sharing one probe with a valid selector. "
     "Non-trivial = the string is neither accepted nor rejected by the lexer/precedence table alone ('Invalid "
     "token'), i.e. it reaches the precedence parser or an evaluator action; distinct by string."
 )
@@ -33,7 +34,7 @@ ASSUMPTIONS = [
     "CodeNotFoundError/ImportError for absolute references to non-existing code are clean refusals",
     "exceptions raised by calling user value expressions (x=fn(...)) belong to the user, not to ptera",
     "exceptions raised inside importlib/codefind while looking up a /module/path reference count as 'not found'",
-    "a <=40-character string that produces no result within 2 s of CPU time (normal: <1 ms) is reported as non-termination",
+    "a string that produces no result within 2 s of CPU time (normal: <1 ms) and again within 10 s on an immediate second attempt is reported as non-termination; a one-off slow first attempt is counted, not reported",
 ]
 
 # --- fixed environment -----------------------------------------------------------------
